@@ -92,10 +92,12 @@ def same_tree(exp, got, float_dict_keys=False):
 def decl_source(row, derives):
     d = row["d"]
     inner = "@derive(Debug, Clone, Eq, Ord, Hash, Serialize, Deserialize)\nmodel Inner{N}:\n    f1: int\n    f2: str\n\n" if "mD1" in d else ""
-    fields = "".join(f"    f{i + 1}: {TYN[t]}\n" for i, t in enumerate(d))
-    src = inner + f"@derive({', '.join(derives)})\nmodel M{{N}}:\n" + fields + "\n"
+    dflt = {int(x[0]): x[1] for x in row.get("dflt", [])}
+    fields = "".join(f"    f{i + 1}: {TYN[t]}" + (f" = {lit(t, dflt[i + 1])}" if (i + 1) in dflt else "") + "\n" for i, t in enumerate(d))
+    src = inner + f"@derive({', '.join(derives)})\n{row.get('kind', 'model')} M{{N}}:\n" + fields + "\n"
     for k, v in enumerate(row["vals"]):
-        args = ", ".join(f"f{i + 1}={lit(t, v[i])}" for i, t in enumerate(d))
+        # a field whose value equals its declared default is left to the default (construction through the default path)
+        args = ", ".join(f"f{i + 1}={lit(t, v[i])}" for i, t in enumerate(d) if not ((i + 1) in dflt and dflt[i + 1] == v[i] and k % 2 == 0))
         src += f"def mk{{N}}_{k}() -> M{{N}}:\n    return M{{N}}({args})\n\n"
     return src
 
@@ -116,7 +118,7 @@ def run(ctx):
                  eq=[[r["eq"][i][j] for j in idx] for i in idx], lt=[[r["lt"][i][j] for j in idx] for i in idx])
         n = len(idx)
         name = r["name"]
-        tags = ["decl:" + name] + ["field:" + t for t in r["d"]]
+        tags = ["decl:" + name] + ["field:" + t for t in r["d"]] + ["kind:" + r.get("kind", "model")] + (["defaults"] if r.get("dflt") else [])
         # --- JSON: stringify + round trip
         body, exp = [], []
         for k in range(n):
@@ -128,7 +130,10 @@ def run(ctx):
         if r["cmp"]:
             # --- round trip equality + == / < matrices
             body = []
-            for k in range(n):
+            # (for a class the from_json call itself does not build - catalogued under the json part - so the comparison
+            #  matrices of class declarations are checked without the round-trip prefix)
+            rt = r.get("kind", "model") == "model"
+            for k in range(n if rt else 0):
                 body += [f"match M{{N}}.from_json(json_stringify(mk{{N}}_{k}())):",
                          f"    Ok(w) => println(w == mk{{N}}_{k}())", "    Err(e) => println(e)"]
             for i in range(n):
@@ -191,7 +196,8 @@ def run(ctx):
                     ctx.fail("json:from_json-fails", dict(info, value=r["vals"][k], text=out[2 * k], result=out[2 * k + 1]), tags=c["tags"])
         elif c["part"] == "cmp":
             want = []
-            for k in range(n):
+            npre = n if r.get("kind", "model") == "model" else 0
+            for k in range(npre):
                 want.append("true")
             for i in range(n):
                 for j in range(n):
@@ -203,10 +209,10 @@ def run(ctx):
             for pos, (w, g) in enumerate(zip(want, out)):
                 n_eval += 1
                 if w != g:
-                    if pos < n:
+                    if pos < npre:
                         what, sym = f"from_json(json_stringify(v)) == v for value {r['vals'][pos]}", "cmp:roundtrip-not-equal"
                     else:
-                        q = pos - n
+                        q = pos - npre
                         i, j, which = q // 2 // n, (q // 2) % n, "<" if q % 2 else "=="
                         what, sym = f"{r['vals'][i]} {which} {r['vals'][j]}", "cmp:wrong-" + ("lt" if q % 2 else "eq")
                     ctx.fail(sym, dict(info, comparison=what, expected=w, observed=g), tags=c["tags"])
@@ -229,7 +235,7 @@ def run(ctx):
         "states": sum(r["distinct"] for r in ctx.tlc_runs),
         "evaluations": n_eval,
         "distinct_nontrivial": len(distinct),
-        "rule": "per declaration (5: scalars, bools, Option/List, nested model, float/Dict) and value set from TLC: one compiled "
+        "rule": "per declaration (9: scalars, bools, Option/List, nested model, float/Dict, and three with defaulted fields placed before / between required ones, as model and as class) and value set from TLC: one compiled "
                 "program per part (json, comparisons, hashing, clone); counted = individual printed facts compared with the spec",
         "declarations": len(rows),
     }, assumptions=["floats are dyadic and compared numerically; Eq/Ord/Hash are not derived for float fields (Rust f64 is not Eq)",
